@@ -29,6 +29,7 @@ WHAT = {
  "C08-1": "single-chunk in-place sort corrupts the chunk cache; wrong order after toggle-sort",
  "C08-2": "patternCache not reset on reload: old denylist hides lines of the new input",
  "C08-3": "cancelled scan stops mid-chunk but still caches the truncated chunk result",
+ "C08-10": "(regression change, reverse of the F34 repair) header event raised inside ChunkList.Push: lock-order inversion with the main loop's snapshot",
  "C09-1": "kill-line keeps an alias of the query buffer as kill ring (yank after put shows the overwrite)",
  "C09-2": "half-page moves 0 lines when one item line fits (clamp applied before halving)",
  "C09-3": "toggle-all fast path clears the selection when len(selected) == matchCount but the sets differ",
